@@ -1,0 +1,98 @@
+//! Child module of `store.rs` (feature `verif`): read-only state dump.
+
+use super::{LockNode, Store, StoreNode, SubscribersNode};
+use serde_json::{Map, Value, json};
+use std::collections::BTreeMap;
+use worterbuch_common::ValueEntry;
+
+pub fn snapshot(store: &Store) -> Value {
+    let mut locked_keys = BTreeMap::new();
+    for (client, paths) in &store.locked_keys {
+        locked_keys.insert(
+            client.to_string(),
+            Value::Array(paths.iter().map(|p| Value::String(p.join("/"))).collect()),
+        );
+    }
+    let mut out = Map::new();
+    out.insert("data".into(), data_node(&store.data));
+    out.insert("len".into(), json!(store.len));
+    out.insert("locked_keys".into(), to_obj(locked_keys));
+    out.insert("locks".into(), lock_node(&store.locks));
+    out.insert("ls_subscribers".into(), subs_node(&store.subscribers));
+    Value::Object(out)
+}
+
+fn data_node(node: &StoreNode) -> Value {
+    let mut out = Map::new();
+    if let Some(tree) = node.tree.as_ref() {
+        let mut children = BTreeMap::new();
+        for (k, child) in tree {
+            children.insert(k.clone(), data_node(child));
+        }
+        out.insert("t".into(), to_obj(children));
+    }
+    match node.value.as_ref() {
+        Some(ValueEntry::Plain(v)) => {
+            out.insert("v".into(), json!({ "p": v }));
+        }
+        Some(ValueEntry::Cas(v, version)) => {
+            out.insert("v".into(), json!({ "c": [v, version] }));
+        }
+        None => {}
+    }
+    Value::Object(out)
+}
+
+fn lock_node(node: &LockNode) -> Value {
+    let mut out = Map::new();
+    if let Some(tree) = node.tree.as_ref() {
+        let mut children = BTreeMap::new();
+        for (k, child) in tree {
+            children.insert(k.clone(), lock_node(child));
+        }
+        out.insert("t".into(), to_obj(children));
+    }
+    if let Some(lock) = node.value.as_ref() {
+        let candidates: Vec<Value> = lock
+            .candidates
+            .iter()
+            .map(|(c, txs)| json!([c.to_string(), txs.len()]))
+            .collect();
+        out.insert(
+            "v".into(),
+            json!({ "holder": lock.holder.to_string(), "candidates": candidates }),
+        );
+    }
+    Value::Object(out)
+}
+
+fn subs_node(node: &SubscribersNode) -> Value {
+    let mut out = Map::new();
+    let ls: Vec<Value> = node
+        .ls_subscribers
+        .iter()
+        .map(|s| {
+            Value::String(format!(
+                "{}#{}@{}",
+                s.id.client_id,
+                s.id.transaction_id,
+                s.parent.join("/")
+            ))
+        })
+        .collect();
+    out.insert("ls".into(), Value::Array(ls));
+    let mut children = BTreeMap::new();
+    for (k, child) in &node.tree {
+        children.insert(k.clone(), subs_node(child));
+    }
+    out.insert("t".into(), to_obj(children));
+    Value::Object(out)
+}
+
+fn to_obj(m: BTreeMap<String, Value>) -> Value {
+    let mut out = Map::new();
+    for (k, v) in m {
+        out.insert(k, v);
+    }
+    Value::Object(out)
+}
